@@ -387,8 +387,6 @@ def _partial_delegation(prog: Program, col: Collector, refs: Refs, cat: Catalogu
                       f"the adjoint of {sorted(handed)} is delegated with incoming adjoint `{norm(adj_arg)[:50]}`, which is not built from the operand(s) {missing} that stay behind, and "
                       f"there is no test that the term's op is `{sum_p}` (the additive role): for a product the adjoint of every operand carries all the other factors", f.loc(c))
     col.cur.analysed["delegation_sites"] = n_sites
-    if n_sites < 2:
-        raise AnalysisError(f"R11.13: only {n_sites} delegation site(s) between adjoint rules found (2 confirmed by hand: adjoint_contract_unary -> adjoint_reduce, adjoint_contract_generic -> adjoint_ops)")
 
 
 def _product_rule(col: Collector, f: Func, refs: Refs):
